@@ -3722,6 +3722,7 @@ impl Lexer<'_> {
 
         // What are we comparing the ending against
         let (ending, ending_len) = if is_datalines4 { (";;;;", 4) } else { (";", 1) };
+        let mut found_ending = false;
 
         loop {
             match self.cursor.peek() {
@@ -3732,15 +3733,16 @@ impl Lexer<'_> {
                 Some(';') | None => {
                     let rem_text = self.cursor.as_str();
 
-                    if rem_text.len() < ending_len {
-                        // Not enough characters left to match the ending
-                        // Emit error, but assume that we found the ending
+                    if rem_text.is_empty() {
+                        // End of input without the ending
+                        // Emit error, but assume that we found the (empty) ending
                         self.emit_error(ErrorKind::UnterminatedDatalines);
                         break;
                     }
 
-                    if self.cursor.as_str().get(..ending_len).unwrap_or("") == ending {
+                    if rem_text.get(..ending_len).unwrap_or("") == ending {
                         // Found the ending. Do not consume as it will be a separate token
+                        found_ending = true;
                         break;
                     }
 
@@ -3762,9 +3764,11 @@ impl Lexer<'_> {
         // Start the new token
         self.start_token();
 
-        // Consume the ending
-        #[allow(clippy::cast_possible_truncation)]
-        self.cursor.advance_by(ending_len as u32);
+        // Consume the ending (nothing to consume if the input ended without it)
+        if found_ending {
+            #[allow(clippy::cast_possible_truncation)]
+            self.cursor.advance_by(ending_len as u32);
+        }
 
         // Add the datalines end token
         self.emit_token(TokenChannel::DEFAULT, TokenType::SEMI, Payload::None);
